@@ -199,8 +199,10 @@ def run(rep, tier, seed):
     # trajectory part on the C03 scopes
     cs = C03.cases(tier, seed)
     if tier != "thorough":
+        # (an odd stride: the list alternates dynamic/greedy per assignment)
         cs = [(s, {k: v for k, v in c.items() if k != "delay"} if i % 4
-               else c) for i, (s, c) in enumerate(cs)][::2]
+               else c) for i, (s, c) in enumerate(cs)]
+        cs = [x for i, x in enumerate(cs) if i % 3 != 2]
     e1.sweep(rep, cs, monitors_for,
              {"delay": 2 if tier == "thorough" else 1})
     rep.nontrivial += len(table)
